@@ -111,22 +111,8 @@ def registry_reach(fx):
     return roots, fx.reachable_from(roots, extra_edges=extra), extra
 
 
-def scrutinee_class(f, sw_bb):
-    """classify the scrutinee of a Cell discriminant switch: ('value'|'aware'|'raw', detail)"""
-    t = f.blocks[sw_bb]['term']
-    e = f.expr_of_operand(t['discr'])
-    if not (isinstance(e, tuple) and e[0] == 'discr'):
-        return None
-    pe = e[1]
-    variants = None
-    for b2 in f.reachable_blocks():
-        for st in f.blocks[b2]['stmts']:
-            if st['k'] == 'assign' and st['rv']['k'] == 'discr' and st['rv'].get('adt') == 'cell::Cell':
-                variants = dict(st['rv']['variants'])
-    arms = []
-    for v, tgt in t['targets']:
-        arms.append(variants.get(v, str(v)) if variants else str(v))
-    # provenance: does the place derive from a Cell::value() result?
+def _from_value(pe):
+    """(derives from a Cell::value() result?, where the walk stopped)"""
     cur = pe
     via_value = False
     hops = 0
@@ -157,6 +143,65 @@ def scrutinee_class(f, sw_bb):
             break
         else:
             break
+    return via_value, cur
+
+
+def _closure_param_exprs(fx, cname, n):
+    """[(Fn g, expr)]: what is passed as parameter n of closure `cname` by each local function the closure is handed to
+    (None if it is handed to a function whose body we do not have)"""
+    from ..logfx import _closure_of, CALL_ONCE
+    parent = cname.rsplit('::{closure', 1)[0]
+    pf = fx.fns.get(parent)
+    if pf is None:
+        return None
+    out = []
+    for bb, t in pf.calls():
+        for k, a in enumerate(t['args']):
+            c = _closure_of(pf.expr_of_operand(a))
+            if c is None or c[0] != cname:
+                continue
+            g = fx.fns.get(callee_of(t) or '')
+            if g is None:
+                return None
+            found = False
+            for bb2, t2 in g.calls():
+                if callee_of(t2) in CALL_ONCE and len(t2['args']) == 2:
+                    who = g.expr_of_operand(t2['args'][0])
+                    while isinstance(who, tuple) and who[0] in ('ref', 'cast'):
+                        who = who[2]
+                    if not (isinstance(who, tuple) and who[0] == 'arg' and who[1] == k + 1):
+                        continue
+                    tup = g.expr_of_operand(t2['args'][1])
+                    if isinstance(tup, tuple) and tup[0] == 'agg' and len(tup[3]) >= n - 1:
+                        out.append((g, tup[3][n - 2]))
+                        found = True
+            if not found:
+                return None
+    return out
+
+
+def scrutinee_class(f, sw_bb, fx=None):
+    """classify the scrutinee of a Cell discriminant switch: ('value'|'aware'|'raw', detail)"""
+    t = f.blocks[sw_bb]['term']
+    e = f.expr_of_operand(t['discr'])
+    if not (isinstance(e, tuple) and e[0] == 'discr'):
+        return None
+    pe = e[1]
+    variants = None
+    for b2 in f.reachable_blocks():
+        for st in f.blocks[b2]['stmts']:
+            if st['k'] == 'assign' and st['rv']['k'] == 'discr' and st['rv'].get('adt') == 'cell::Cell':
+                variants = dict(st['rv']['variants'])
+    arms = []
+    for v, tgt in t['targets']:
+        arms.append(variants.get(v, str(v)) if variants else str(v))
+    # provenance: does the place derive from a Cell::value() result?
+    via_value, cur = _from_value(pe)
+    if not via_value and fx is not None and isinstance(cur, tuple) and cur[0] == 'arg' and cur[1] >= 2 and '{closure' in f.name:
+        # the scrutinee is a parameter of a closure: look at what the function that invokes the closure passes
+        srcs = _closure_param_exprs(fx, f.name, cur[1])
+        if srcs and all(_from_value(e)[0] for (_g, e) in srcs):
+            via_value = True
     if via_value:
         return 'value', arms, expr_str(pe)
     if 'WithTag' in arms:
@@ -186,7 +231,7 @@ def run(rep, facts, tier):
             e = f.expr_of_operand(t['discr'])
             if not (isinstance(e, tuple) and e[0] == 'discr' and e[2] == 'cell::Cell'):
                 continue
-            cls = scrutinee_class(f, bb)
+            cls = scrutinee_class(f, bb, fx)
             if cls is None:
                 continue
             kind, arms, ptxt = cls
@@ -216,7 +261,7 @@ def run(rep, facts, tier):
     for bb in vf.reachable_blocks():
         t = vf.blocks[bb]['term']
         if t['k'] == 'switch':
-            cls = scrutinee_class(vf, bb)
+            cls = scrutinee_class(vf, bb, fx)
             if cls and 'WithTag' in cls[1]:
                 # the WithTag arm must return a reference into field `value`
                 for (b0, i0, kind, payload) in vf.defs().get(0, []):
